@@ -4,8 +4,9 @@ package p9
 
 // VerifH_C10_PoolStep: one inductive step of the tag/fid allocator from an
 // arbitrary state satisfying the representation invariant.
-//   INV: cache elements pairwise distinct, each < start, none outstanding;
-//        outstanding elements pairwise distinct and < start; start <= limit.
+//
+//	INV: cache elements pairwise distinct, each < start, none outstanding;
+//	     outstanding elements pairwise distinct and < start; start <= limit.
 func VerifH_C10_PoolStep() {
 	nc := verifChoice(verifParam("C", 3) + 1)
 	no := verifChoice(verifParam("O", 3) + 1)
